@@ -3,7 +3,7 @@ import framework
 import gen
 import wire
 
-PREFIXES = ["", " ", "\n", "\n\n  ", "é ", "'é\n中' | ", "\"\U0001f600\".", "`\"é\"` && ", "a\n.b\n.", "[\n'é',\n", "a ||\n\t"]
+PREFIXES = ["", " ", "\n", "\n\n  ", "\r", "\r\n ", "a\r.b\r\n.", "a ||\r", "'\r' | ", "é ", "'é\n中' | ", "\"\U0001f600\".", "`\"é\"` && ", "a\n.b\n.", "[\n'é',\n", "a ||\n\t"]
 FAILING_CALLS = ["abs(@)\n", "nope(@)\n\n", "a[::0].b", "foo[::0]\n  .bar\n  .baz", "a[::0][0]", "a[::0][?b]", "[::0].a | b", "abs('x')", "abs(a, b)", "abs()", "nope(@)", "length(`1`)", "a[::0]", "sort_by(@, &type(@) == `\"x\"`)", "max_by(@, &@)",
                  "length(abs(foo))", "nope(keys(@))", "abs(foo,\n  to_number(bar))", "join(', ', [abs(`1`), 'x'])", "map(&nope(@), @)",
                  "sum(@)", "avg(@)", "merge(@, `1`)", "not_null()", "sort_by(a, &b)", "min_by(a, &`[1]`)", "[0][::0]", "foo | bar[1:2:0]",
@@ -40,6 +40,28 @@ class P(framework.Prop):
                         if pre.startswith("["):
                             e = pre + call + "]"
                         out.append("search %s %s" % (wire.s(e), wire.val(d)))
+        # the by-functions report a rejected key at their own opening parenthesis, whatever the key expression evaluated on the way
+        # (slices, indexes, filters, nested calls, multi-selects: every node kind that carries an offset of its own)
+        KEYS_ = ["a[:1]", "a[0:2]", "(@.a[:1])[0]", "a[::2]", "a[0]", "a[-1]", "a[?b]", "a[*]", "a[]", "[a, b]", "{x: a}", "length(a[1:]) > `0`", "a[1:] | length(@) > `0`",
+                 "to_array(a[0])", "a[:1][0]", "a.b[:1]", "a[?b][:1]", "keys(@)", "values(@)[:1]", "not_null(a[:1], b)", "a[:1] || b", "a[5:] && b", "!a[:1]", "*", "a.*",
+                 "merge(@, @)", "a[:1]\n", "\n a [ : 1 ]", "a[::0]", "a[0][::0]"]
+        BYDOCS = [[{"a": [1, 2]}], [{"a": [1, 2], "b": 1}, {"a": ["x"], "b": 2}], [[1, 2], ["a"]], [{"a": [{"b": 1}]}], [{"a": {"b": [1, 2]}}], [{"a": "abc"}, {"a": 1}], [{"a": []}], []]
+        for f in ("sort_by", "max_by", "min_by"):
+            for k in KEYS_:
+                for d in (BYDOCS if tier != "quick" else rng.sample(BYDOCS, 4)):
+                    for pre in ("", rng.choice(PREFIXES)):
+                        e = "%s(@, &%s)" % (f, k)
+                        if pre.startswith("["):
+                            e = pre + e + "]"
+                        elif pre.strip() and not pre.rstrip().endswith(("|", ".", "&&", "||", ",")):
+                            e = pre + "| " + e
+                        else:
+                            e = pre + e
+                        out.append("search %s %s" % (wire.s(e), wire.val(d)))
+            for k in KEYS_[:12]:
+                out.append("search %s %s" % (wire.s("map(&%s(@, &%s), @)" % (f, k)), wire.val([[{"a": [1, 2]}], [{"a": [3]}]])))
+                out.append("search %s %s" % (wire.s("length(%s(@, &%s))" % (f, k)), wire.val([{"a": [1, 2]}, {"a": ["x"]}])))
+                out.append("search %s %s" % (wire.s("%s(@, &%s)[0].nope(@)" % (f, k)), wire.val([{"a": [1, 2]}])))
         # Display's location block for arbitrary (expression, line, column): the model of errors.rs's Display against the library
         R = 400 if tier == "quick" else 20000
         alphabet = ["a", "b", "\n", "\n", " ", "\u00e9", "\u4e2d", "\U0001f600", "\r", "^", "."]
